@@ -57,11 +57,23 @@ def r9_2(repo: Repo) -> RuleResult:
     # writers: new_code = max_char_code + 1 ; new_code += 1 once per merge
     for name in ("bpe_train", "bpe_encode"):
         f = repo.func(MG, name)
-        inits = [n for n in walk_no_nested(f.node) if isinstance(n, ast.Assign) and norm(n.targets[0]) == "new_code"]
-        incs = [n for n in walk_no_nested(f.node) if isinstance(n, ast.AugAssign) and norm(n.target) == "new_code"]
+        # the code counter is the variable handed to the contraction kernel as its `new_code`
+        counter = None
+        for c in repo.calls_in(f):
+            for t in repo.resolve_call(f, c):
+                if isinstance(t, Func) and "new_code" in t.params:
+                    b = repo.bind_args(t, c)
+                    if isinstance(b.get("new_code"), ast.Name):
+                        counter = b["new_code"].id
+        if counter is None:
+            raise AnalysisError("R9.2: code counter not found in %s" % name)
+        mcc = [p_ for p_ in f.params if "max_char_code" in p_]
+        inits = [n for n in walk_no_nested(f.node) if isinstance(n, ast.Assign) and norm(n.targets[0]) == counter]
+        incs = [n for n in walk_no_nested(f.node) if isinstance(n, ast.AugAssign) and norm(n.target) == counter]
         ok = (
             len(inits) == 1
-            and sym.poly(inits[0].value) == sym.poly(ast.parse("max_char_code + 1", mode="eval").body)
+            and bool(mcc)
+            and sym.poly(inits[0].value) == sym.poly(ast.parse("%s + 1" % mcc[0], mode="eval").body)
             and len(incs) == 1
             and isinstance(incs[0].op, ast.Add)
             and norm(incs[0].value) == "1"
@@ -81,10 +93,16 @@ def r9_3(repo: Repo) -> RuleResult:
         raise AnalysisError("R9.3: bpe_train no longer has a single training loop")
     lp = loops[0]
     t = lp.test
+    # the token list is the first element of the returned tuple
+    rets = [n for n in walk_no_nested(f.node) if isinstance(n, ast.Return) and isinstance(n.value, ast.Tuple)]
+    if not rets or not isinstance(rets[0].value.elts[0], ast.Name):
+        raise AnalysisError("R9.3: bpe_train does not return its token list first")
+    tok = rets[0].value.elts[0].id
+    budget = f.params[1]
     ok_test = isinstance(t, ast.Compare) and len(t.ops) == 1 and isinstance(t.ops[0], ast.Lt) \
-        and norm(t.left) == "len(tokens)" and norm(t.comparators[0]) == "vocab_size"
-    appends = [n for n in ast.walk(lp) if isinstance(n, ast.Call) and norm(n.func) == "tokens.append"]
-    outside = [n for n in walk_no_nested(f.node) if isinstance(n, ast.Call) and norm(n.func) in ("tokens.append", "tokens.extend")
+        and norm(t.left) == "len(%s)" % tok and norm(t.comparators[0]) == budget
+    appends = [n for n in ast.walk(lp) if isinstance(n, ast.Call) and norm(n.func) == "%s.append" % tok]
+    outside = [n for n in walk_no_nested(f.node) if isinstance(n, ast.Call) and norm(n.func) in ("%s.append" % tok, "%s.extend" % tok)
                and not any(n is x for x in ast.walk(lp))]
     if ok_test and len(appends) == 1 and not outside:
         rr.ok(f, "training loop", "guard len(tokens) < vocab_size, one append per iteration", lp.lineno)
